@@ -44,6 +44,9 @@ CTX = {
     "title_par": ("[x](u ({}))", '<p><a href="u" title="{}">x</a></p>\n'),
     "title_ref": ('[r]: /u "{}"\n\n[x][r]', '<p><a href="/u" title="{}">x</a></p>\n'),
     "cell": ("| {} |\n|-|\n", "<table>\n<thead>\n<tr>\n<th>{}</th>\n</tr>\n</thead>\n</table>\n"),
+    # rows written without the optional closing pipe: t is the last thing on the line
+    "cell_open": ("| a | {}\n|-|-\n", "<table>\n<thead>\n<tr>\n<th>a</th>\n<th>{}</th>\n</tr>\n</thead>\n</table>\n"),
+    "cell_body_open": ("| h | k |\n|-|-|\n| b | {}\n", "<table>\n<thead>\n<tr>\n<th>h</th>\n<th>k</th>\n</tr>\n</thead>\n<tbody>\n<tr>\n<td>b</td>\n<td>{}</td>\n</tr>\n</tbody>\n</table>\n"),
     "li": ("- {}", "<ul>\n<li>{}</li>\n</ul>\n"),
     "bq": ("> {}", "<blockquote>\n<p>{}</p>\n</blockquote>\n"),
 }
